@@ -197,3 +197,19 @@ Fixpoint spec_steps (objs : list tstate) (ops : list op) (obs : list stepobs) : 
 (* a whole case: FromHeader(h), then the operations *)
 Definition spec_case (h : bytes) (ops : list op) (o0 : objobs) (obs : list stepobs) : list tok :=
   spec_obj_ok o0 ++ spec_from_header_ok h (oo_entries o0) ++ spec_steps [oo_entries o0] ops obs.
+
+(* ---------------------------------------------------------------- purity probe (harness/c14_purity.cc)
+   The model's operations are functions of immutable values, so whatever several threads compute from shared
+   objects is what one thread computes: the only observation the model predicts for a PURITY case is PURE.
+   This clause is a RUN-TIME probe of that modelling assumption on the implementation, not a theorem about it. *)
+Definition spec_purity_ok (obs : list tok) : list tok :=
+  match obs with
+  | [t] => if is_tag "PURE" t then [] else fail "obs:unparsable"
+  | t :: _ => if is_tag "RACE" t then fail "purity:data_race"
+              else if is_tag "DIFFERS" t then fail "purity:result_differs"
+              else if is_tag "HARNESSRACE" t then fail "harness:probe_race"
+              else if is_tag "HANG" t then fail "purity:hang"
+              else if is_tag "CRASH" t then fail "purity:crash"
+              else fail "obs:unparsable"
+  | [] => fail "obs:unparsable"
+  end.
